@@ -451,6 +451,18 @@ def opGolden (j : Json) : Option Json := do
   let run := goldRun gr f xtol maxiter (if csort then goldInitSorted gr a b cv else goldInit gr a b cv)
   some (ok (jObj [("x", jFs (List.ofFn x)), ("gr", jF gr), ("final", gstJson s), ("trace", jArr (run.map gstJson))]))
 
+/-- argument checks of `MatrixATADSolver.__init__`: `dkind` ∈ {"diagonal","array"}, `dndim`, `wkind` ∈ {"none","diagonal","array","other"}, `wndim` -/
+def opAtadValidate (j : Json) : Option Json := do
+  let dk ← fStr? j "dkind"
+  let dn ← fNat? j "dndim"
+  let wk ← fStr? j "wkind"
+  let wn ← fNat? j "wndim"
+  let d : DArg := if dk == "diagonal" then .diagonalOp dn else .array dn
+  let w : WArg := if wk == "none" then .none else if wk == "diagonal" then .diagonalOp wn else if wk == "array" then .array else .other
+  match atadValidate d w with
+  | .ok _ => some (ok (jObj [("accepted", Json.bool true)]))
+  | .error e => some (err e)
+
 def handler : Handler := fun op j =>
   let cplx := (fStr? j "dt") == some "c"
   match op with
@@ -465,6 +477,7 @@ def handler : Handler := fun op j =>
   | "circ" => if cplx then opCirc (α := Cx Float) j else opCirc (α := Float) j
   | "admm_matrix" => if cplx then opAdmmMatrix (α := Cx Float) j else opAdmmMatrix (α := Float) j
   | "genobj" => if cplx then opGenObj (α := Cx Float) j else opGenObj (α := Float) j
+  | "atad_validate" => opAtadValidate j
   | "bisect" => opBisect j
   | "golden" => opGolden j
   | _ => none
